@@ -27,6 +27,7 @@ RULE = ('constructors (classical, SA, root-node, pairwise, AIR) x spy accelerato
         'x0 given/omitted x callback/residuals on/off; named accelerators cg, gmres, bicgstab, fgmres, cr, cgnr (native) and '
         'cgs, qmr, tfqmr, lgmres, gcrotmk, minres (SciPy); black-box on SPD and nonsymmetric M-matrices in CSR/BSR/dense with '
         'and without an existing solver, b (n,) and (n,1).  Non-trivial: the accelerator iterated at least once.')
+THOROUGH_ROUNDS = 5
 TRUSTED = ['scipy.sparse.linalg iterative solvers (contract: rtol/atol semantics)', 'C03, C06']
 PARTIAL = ['black-box / accelerated convergence to tol: oracle only']
 REFUTED = []
